@@ -98,6 +98,8 @@ type Exec struct {
 	ObsValues   [][]uint64
 	violSeen    map[string]bool
 	rd          *raceDetector
+	reachOK     map[int]bool
+	dirty       int // unchecked assumptions since the path condition was last known satisfiable
 	probing     bool
 }
 
@@ -136,6 +138,14 @@ func (e *Exec) Assume(c *Term) {
 	e.pathCond = append(e.pathCond, c)
 	e.S.Assert(c)
 	e.remember(c, true)
+	e.dirty++
+}
+
+// AssumeBenign adds a constraint that cannot make the path condition unsatisfiable (the monotonic clock chain).
+func (e *Exec) AssumeBenign(c *Term) {
+	d := e.dirty
+	e.Assume(c)
+	e.dirty = d
 }
 
 func (e *Exec) known(c *Term) (bool, bool) {
@@ -169,8 +179,11 @@ func (e *Exec) remember(c *Term, v bool) {
 func (e *Exec) AssumeChecked(c *Term) {
 	e.Assume(c)
 	if !c.Const {
-		if e.S.Check() == Unsat {
+		switch e.S.Check() {
+		case Unsat:
 			panic(pathEnd{"infeasible"})
+		case SatRes:
+			e.dirty = 0
 		}
 	}
 }
@@ -189,11 +202,13 @@ func (e *Exec) Branch(c *Term) bool {
 		e.trace = append(e.trace, d)
 		v := d.V == 1
 		if !d.Forced {
+			dd := e.dirty
 			if v {
 				e.Assume(c)
 			} else {
 				e.Assume(e.C.Not(c))
 			}
+			e.dirty = dd // this side was found feasible when the decision was first made
 		} else {
 			e.remember(c, v)
 		}
@@ -225,7 +240,11 @@ func (e *Exec) Branch(c *Term) bool {
 	e.Pending = append(e.Pending, alt)
 	e.trace = append(e.trace, Decision{V: 1, N: 2})
 	e.Stats.Forks++
+	wasClean := e.dirty == 0
 	e.Assume(c)
+	if wasClean && rt == SatRes {
+		e.dirty = 0 // pathCond ∧ c was just found satisfiable
+	}
 	return true
 }
 
